@@ -568,6 +568,7 @@ class Prop(CompilerProp):
             self.stream(ctx, [self.gen(ctx, i + k) for k in range(m)], "generated")
             i += m
         ctx.extra_cov["exhaustive"] = False
+        self.run_parse_tie(ctx)
 
     def replay(self, ctx, rep) -> int:
         c = cgroup.Case.from_json(rep["case"])
